@@ -1095,3 +1095,110 @@ Proof.
         destruct (Hshape t' nd Hin) as [(x & ->)|(x & ->)]; cbn; lia. }
       specialize (Hl H). lia.
 Qed.
+
+(* ================= Part 5: the scope of the parsed declarations ================= *)
+Definition decl_entry (v : ival) : option (string * sentry) :=
+  match v with
+  | VStruct name ms => Some (name, ScStruct name ms)
+  | VItf name _ _ _ => Some (name, ScItf)
+  | _ => None
+  end.
+Fixpoint first_decl (k : string) (ds : list ival) : option sentry :=
+  match ds with
+  | [] => None
+  | d :: r => match decl_entry d with
+              | Some (n, e) => if String.eqb n k then Some e else first_decl k r
+              | None => first_decl k r
+              end
+  end.
+
+Lemma lookup_snoc {A} k (l : list (string * A)) n v : lookup k (l ++ [(n, v)])%list =
+  match lookup k l with Some x => Some x | None => if String.eqb n k then Some v else None end.
+Proof.
+  induction l as [|[a w] l IH]; cbn; [reflexivity|]. destruct (String.eqb a k); [reflexivity|exact IH].
+Qed.
+
+Lemma scope_of_lookup k ds : forall acc,
+  lookup k (scope_of ds acc) = match lookup k acc with Some v => Some v | None => first_decl k ds end.
+Proof.
+  induction ds as [|d ds IH]; intro acc; cbn [scope_of first_decl]; [now destruct (lookup k acc)|].
+  destruct d; cbn [decl_entry]; try apply IH.
+  - (* interface *)
+    rewrite IH. destruct (lookup name acc) eqn:En.
+    + destruct (lookup k acc) eqn:Ek; [reflexivity|].
+      destruct (String.eqb_spec name k) as [->|_]; [congruence|reflexivity].
+    + rewrite lookup_snoc. destruct (lookup k acc); [reflexivity|]. now destruct (String.eqb name k).
+  - (* struct *)
+    rewrite IH. destruct (lookup name acc) eqn:En.
+    + destruct (lookup k acc) eqn:Ek; [reflexivity|].
+      destruct (String.eqb_spec name k) as [->|_]; [congruence|reflexivity].
+    + rewrite lookup_snoc. destruct (lookup k acc); [reflexivity|]. now destruct (String.eqb name k).
+Qed.
+
+Lemma first_decl_app_skip k l1 l2 :
+  (forall d n e, In d l1 -> decl_entry d = Some (n, e) -> n <> k) -> first_decl k (l1 ++ l2) = first_decl k l2.
+Proof.
+  induction l1 as [|d l1 IH]; intro H; [reflexivity|]. cbn [app first_decl].
+  destruct (decl_entry d) as [[n e]|] eqn:Ed.
+  - destruct (String.eqb_spec n k) as [->|_]; [exfalso; now apply (H d k e (or_introl eq_refl))|].
+    apply IH. intros d' n' e' Hin. apply H. now right.
+  - apply IH. intros d' n' e' Hin. apply H. now right.
+Qed.
+
+Definition ifields (fs : list (string * ty)) : list (string * ity) := map (fun p => (fst p, ity_of (snd p))) fs.
+
+Lemma struct_vals_first E inames S k fs : set_ok E inames S -> (forall x, In x inames -> lookup x E = None) ->
+  lookup k E = Some fs -> lookup k S <> None ->
+  first_decl k (flat_map (fun e => match snd (snd e), lookup (fst e) E with
+                                   | Some _, Some fs => [struct_val (fst e) fs]
+                                   | _, _ => []
+                                   end) S) = Some (ScStruct k (ifields fs)).
+Proof.
+  intros [HF Hnd] Hd Hk. induction S as [|[n [sg blk]] S IH]; intro Hl; [now elim Hl|].
+  inversion HF as [|? ? He HF']; subst. cbn [map] in Hnd. inversion Hnd as [|? ? Hn Hnd']; subst.
+  cbn [flat_map fst snd]. cbn [lookup] in Hl. destruct (String.eqb_spec n k) as [->|Hne].
+  - destruct He as [[Hi _]|(fs' & Hl' & Heq)]; cbn [fst snd] in *.
+    + rewrite (Hd k Hi) in Hk. discriminate.
+    + inversion Heq; subst. rewrite Hl'. rewrite Hk in Hl'. inversion Hl'; subst.
+      cbn [app first_decl struct_val decl_entry]. now rewrite String.eqb_refl.
+  - assert (Hskip : forall d n' e, In d (match blk, lookup n E with Some _, Some fs0 => [struct_val n fs0] | _, _ => [] end) ->
+                      decl_entry d = Some (n', e) -> n' <> k).
+    { intros d n' e Hin Hde. destruct blk; [|destruct Hin]. destruct (lookup n E); [|destruct Hin].
+      destruct Hin as [<-|[]]. cbn in Hde. inversion Hde. now subst. }
+    rewrite (first_decl_app_skip k _ _ Hskip). now apply IH.
+Qed.
+
+Lemma scope_struct E P S k fs : package_ok E P -> set_ok E (map to_name P) S ->
+  lookup k E = Some fs -> lookup k S <> None ->
+  lookup k (scope_of (decl_vals E P S) []) = Some (ScStruct k (ifields fs)).
+Proof.
+  intros [HP _] HS Hk Hl. rewrite scope_of_lookup. cbn [lookup]. unfold decl_vals.
+  assert (Hdisj : forall x, In x (map to_name P) -> lookup x E = None).
+  { intros x Hx. apply in_map_iff in Hx as (o & <- & Ho). rewrite Forall_forall in HP. apply (HP o Ho). }
+  rewrite first_decl_app_skip.
+  - now apply (struct_vals_first E (map to_name P)).
+  - intros d n e Hin Hde. apply in_map_iff in Hin as (o & <- & Ho). cbn in Hde. inversion Hde; subst.
+    intro Heq. rewrite Forall_forall in HP. destruct (HP o Ho) as [_ Hc _ _ _ _ _ _]. rewrite Heq in Hc. congruence.
+Qed.
+
+(* every struct of a covered type is in the scope with its own members *)
+Lemma scope_has_covered E P S t : package_ok E P -> set_ok E (map to_name P) S ->
+  env_ok E t -> covers S t -> scope_has (scope_of (decl_vals E P S) []) t.
+Proof.
+  intros HP HS. induction t as [s|t IHt|k v IHk IHv|ts IH|n fs IH] using ty_ind2; intros He Hc.
+  - exact I.
+  - now apply IHt.
+  - unfold env_ok in He. cbn [structs_of] in He. rewrite Forall_app in He. destruct He as [Hek Hev].
+    split; [apply IHk|apply IHv]; try assumption; intros d Hd; apply Hc; cbn [structs_of]; apply in_or_app; auto.
+  - apply env_ok_list in He. cbn [scope_has].
+    assert (Hc' : Forall (covers S) ts).
+    { apply Forall_forall. intros t Ht d Hd. apply Hc. cbn [structs_of]. apply in_flat_map. eauto. }
+    clear Hc. induction ts as [|t ts IHl]; [exact I|].
+    inversion IH; subst. inversion He; subst. inversion Hc'; subst. split; [auto|now apply IHl].
+  - apply env_ok_struct in He as [Hl He]. cbn [scope_has]. split.
+    + apply (scope_struct E P S n fs HP HS Hl). apply (Hc (n, fs)). now left.
+    + assert (Hc' : Forall (fun f => covers S (snd f)) fs).
+      { apply Forall_forall. intros f Hf d Hd. apply Hc. cbn [structs_of]. right. apply in_flat_map. eauto. }
+      clear Hc Hl. induction fs as [|f fs IHl]; [exact I|].
+      inversion IH; subst. inversion He; subst. inversion Hc'; subst. split; [auto|now apply IHl].
+Qed.
